@@ -18,6 +18,45 @@ func rulesC14(w *World, o *Out) {
 	o.Rule("C14.R2", "a validator enters the scoring table only with both a metrics record and a fee record; the job filter accepts a validator only through its account on the requested chain, and under an MEV requirement only if that same account carries the MEV trait")
 	o.Rule("C14.R3", "an evm message is offered for relay only if all five relay filters hold; the stateful oldest-per-sender filter is evaluated before the gas-estimate and assignee filters, so an older message that is not yet relayable still blocks younger ones of its sender")
 	o.Rule("C14.R4", "each fee is the ceiling of multiplier × base (estimate for the relayer fee, relayer fee for community / security fees)")
+	// the three rates of the fee formula come from their own records: relayer multiplicator from the relayer's
+	// setting, community rate from CommunityFundFee, security rate from SecurityFee
+	if gc := w.MustFunc(o, "x/treasury/keeper", "Keeper", "GetCombinedFeesForRelay"); gc != nil {
+		o.Analysed(w.FuncKey(gc))
+		for _, spec := range []struct{ field, src string }{{"CommunityFee", ".CommunityFundFee"}, {"SecurityFee", ".SecurityFee"}} {
+			sts := storesToField(gc, "MessageFeeSettings", spec.field)
+			o.Count("C14.R4 "+spec.field+" rate assignments in GetCombinedFeesForRelay", len(sts), 1)
+			for _, st := range sts {
+				paths := map[string]bool{}
+				collect := func(v ssa.Value) {
+					x, _ := fl.Influence(v)
+					for ap := range x {
+						if i := strings.LastIndex(ap.Path, "."); i >= 0 {
+							paths[ap.Path[i:]] = true
+						}
+					}
+				}
+				collect(st.Val)
+				// through a parsing helper introduced later: what the call that produced the value was given
+				var prod *ssa.Call
+				switch x := canonLocal(st.Val).(type) {
+				case *ssa.Extract:
+					prod, _ = x.Tuple.(*ssa.Call)
+				case *ssa.Call:
+					prod = x
+				}
+				if prod != nil && prod.Call.StaticCallee() != nil && isNewHelper(prod.Call.StaticCallee()) {
+					for _, a := range prod.Call.Args {
+						collect(a)
+					}
+				}
+				other := ".SecurityFee"
+				if spec.src == ".SecurityFee" {
+					other = ".CommunityFundFee"
+				}
+				o.Check("C14.R4", "GetCombinedFeesForRelay|"+spec.field+" rate is read from the"+spec.src+" record", paths[spec.src] && !paths[other], w.Pos(st.Pos()), "the rate handed to the fee calculation must come from fees"+spec.src+" (and not from fees"+other+")")
+			}
+		}
+	}
 	o.Rule("C14.R5", "a message never keeps an elected estimate without its fees: each message's estimate processing runs on its own cache context, created for that message and committed only when its processing returned no error")
 	if cp := w.MustFunc(o, "x/consensus/keeper", "Keeper", "CheckAndProcessEstimatedMessages"); cp != nil {
 		o.Analysed(w.FuncKey(cp))
